@@ -269,10 +269,10 @@ Example C06_ex_output_variable :
   (do x <- load_text ex_engine "c is pi"; activation_degree ex_membership (Some TSharp) (Some SSharp) ex_engine x) = Ok 0.1875%float.
 Proof. vm_compute. reflexivity. Qed.
 
-(* the model keeps the defect of rule.py:388 (`stack & (s_hedge | s_term)` on a deque): an antecedent that stops after
-   `is` or after a hedge crashes with TypeError instead of the intended SyntaxError (finding F6, property C16) *)
-Example C06_ex_final_state_bug :
-  load_text ex_engine "a is" = Err EInternal /\ load_text ex_engine "a is very" = Err EInternal /\ load_text ex_engine "a" = Err ESyntax.
+(* an antecedent that stops after the variable, after `is` or after a hedge is rejected with SyntaxError
+   (rule.py:384-389; before the repair of finding F6 the last two crashed with TypeError) *)
+Example C06_ex_final_state_check :
+  load_text ex_engine "a is" = Err ESyntax /\ load_text ex_engine "a is very" = Err ESyntax /\ load_text ex_engine "a" = Err ESyntax.
 Proof. repeat split; vm_compute; reflexivity. Qed.
 
 (* a VARIABLE named like a formula function cannot be used (the shunting-yard moves it); a TERM can *)
